@@ -62,7 +62,9 @@ func runStaleOnlyRefused(p *core.Program, r *core.Report, pkg string) {
 				}
 				// where the compared status comes from
 				var src *ssa.Function
-				v := cmp.X
+				// the status may arrive as a parameter of a helper that is
+				// called at one place (prepareForSpawn(..., status, ...))
+				v := resolveVal(cmp.X)
 				if ex, ok := v.(*ssa.Extract); ok {
 					v = ex.Tuple
 				}
